@@ -96,7 +96,13 @@ def _determine_license_path(path: StrPath) -> Path:
     FILE.
     """
     license_path = Path(f"{path}.license")
-    if not license_path.exists():
+    try:
+        exists = license_path.exists()
+    except OSError:
+        # FILE.license is no possible name if FILE itself is as long as a
+        # file name may be.
+        exists = False
+    if not exists:
         license_path = Path(path)
     return license_path
 
